@@ -64,7 +64,7 @@ var FS = NewFS()
 
 func NewFS() *FSState { return &FSState{Handles: map[*os.File]*Handle{}} }
 
-func ResetFS() { FS = NewFS() }
+func ResetFS() { FS = NewFS(); fsDirs = nil }
 
 var fileIDs = []string{"file0", "file1", "file2", "file3", "file4", "file5", "file6", "file7", "file8", "file9"}
 
@@ -155,6 +155,12 @@ func Os_Remove(name string) error {
 		if f.Path == name {
 			FS.Files = append(FS.Files[:i:i], FS.Files[i+1:]...)
 			FS.Removed = append(FS.Removed, name)
+			return nil
+		}
+	}
+	for i, d := range fsDirs {
+		if d == name {
+			fsDirs = append(fsDirs[:i:i], fsDirs[i+1:]...)
 			return nil
 		}
 	}
@@ -312,3 +318,144 @@ func Os_File_Close(f *os.File) error {
 func Os_File_ReadFrom(f *os.File, r io.Reader) (int64, error) { return copyLoop(f, r) }
 
 func Os_File_WriteTo(f *os.File, w io.Writer) (int64, error) { return copyLoop(w, f) }
+
+// ---------------------------------------------------------------- directories
+
+// Dirs lists the directories that exist (besides those implied by files).
+var fsDirs []string
+
+func (s *FSState) AddDir(path string) { fsDirs = append(fsDirs, path) }
+
+func parentOf(p string) (string, string) {
+	for i := len(p) - 1; i >= 0; i-- {
+		if p[i] == '/' {
+			return p[:i], p[i+1:]
+		}
+	}
+	return "", p
+}
+
+type mDirEntry struct {
+	name  string
+	isDir bool
+	f     *MFile
+}
+
+func (e *mDirEntry) Name() string { return e.name }
+func (e *mDirEntry) IsDir() bool  { return e.isDir }
+func (e *mDirEntry) Type() fs.FileMode {
+	if e.isDir {
+		return fs.ModeDir
+	}
+	return 0
+}
+func (e *mDirEntry) Info() (fs.FileInfo, error) {
+	if e.f == nil {
+		return &mFileInfo{name: e.name}, nil
+	}
+	return &mFileInfo{e.f.Path, e.f.Size, e.f.Atime}, nil
+}
+
+func dirExists(path string) bool {
+	for _, d := range fsDirs {
+		if d == path {
+			return true
+		}
+	}
+	return false
+}
+
+func Os_ReadDir(name string) ([]os.DirEntry, error) {
+	if !FS.step("readdir") {
+		return nil, &FSError{"readdir", name, 6}
+	}
+	if !dirExists(name) {
+		return nil, &FSError{"readdir", name, 1}
+	}
+	var out []os.DirEntry
+	for _, d := range fsDirs {
+		p, base := parentOf(d)
+		if p == name {
+			out = append(out, &mDirEntry{name: base, isDir: true})
+		}
+	}
+	for _, f := range FS.Files {
+		p, base := parentOf(f.Path)
+		if p == name {
+			out = append(out, &mDirEntry{name: base, f: f})
+		}
+	}
+	return out, nil
+}
+
+func Os_Stat(name string) (os.FileInfo, error) {
+	if dirExists(name) {
+		return &mFileInfo{name: name}, nil
+	}
+	if f := FS.Lookup(name); f != nil {
+		return &mFileInfo{f.Path, f.Size, f.Atime}, nil
+	}
+	return nil, &FSError{"stat", name, 1}
+}
+
+func Os_MkdirAll(path string, perm os.FileMode) error {
+	if !dirExists(path) {
+		fsDirs = append(fsDirs, path)
+	}
+	return nil
+}
+
+func Os_Rename(oldpath, newpath string) error {
+	if !FS.step("rename") {
+		return &FSError{"rename", oldpath, 6}
+	}
+	f := FS.Lookup(oldpath)
+	if f == nil {
+		return &FSError{"rename", oldpath, 1}
+	}
+	if g := FS.Lookup(newpath); g != nil {
+		_ = Os_Remove(newpath)
+	}
+	f.Path = newpath
+	return nil
+}
+
+func Os_RemoveAll(path string) error {
+	if !FS.step("removeall") {
+		return &FSError{"removeall", path, 6}
+	}
+	var keep []*MFile
+	for _, f := range FS.Files {
+		if f.Path == path || (len(f.Path) > len(path) && f.Path[:len(path)+1] == path+"/") {
+			continue
+		}
+		keep = append(keep, f)
+	}
+	FS.Files = keep
+	var kd []string
+	for _, d := range fsDirs {
+		if d == path || (len(d) > len(path) && d[:len(path)+1] == path+"/") {
+			continue
+		}
+		kd = append(kd, d)
+	}
+	fsDirs = kd
+	return nil
+}
+
+func Filepath_EvalSymlinks(path string) (string, error) { return path, nil }
+
+// Atime_Get (github.com/djherbis/atime): the access time recorded in the model.
+func Atime_Get(fi os.FileInfo) time.Time {
+	if m, ok := fi.(*mFileInfo); ok {
+		return time.Unix(m.at, 0)
+	}
+	return time.Time{}
+}
+
+func Atime_Stat(name string) (time.Time, error) {
+	if f := FS.Lookup(name); f != nil {
+		return time.Unix(f.Atime, 0), nil
+	}
+	return time.Time{}, &FSError{"stat", name, 1}
+}
